@@ -78,7 +78,8 @@ pub fn build_world(seed: u64, tokens: &str, rewards: bool, adaptive: bool, rec: 
         _ => (TokProg::T22, Some(())),
     };
     for (i, n) in ["A", "B", "R"].iter().enumerate() {
-        let f = if fee.is_some() && *n != "R" {
+        // (the reward mint charges a transfer fee in half of the transfer-fee worlds with rewards)
+        let f = if fee.is_some() && (*n != "R" || (rewards && w.rng.gen_bool(0.5))) {
             let bps = pick(&mut w, &[0u16, 1, 30, 250, 5000, 9999, 10000]);
             let max = pick(&mut w, &[0u64, 1, 1000, 5_000_000, u64::MAX]);
             if w.rng.gen_bool(0.8) { Some((bps, max)) } else { None }
